@@ -47,7 +47,7 @@ var (
 	// LetNames is the pool of names bound by let statements and parameters; queries
 	// mention them both bound and unbound so that the prelude in force is visible in the SQL.
 	LetNames = []string{"x", "y", "n", "s", "lim"}
-	Columns  = []string{"a", "b", "c", "k", "EventType", "State", "`my col`", "`semi;col`", "m"}
+	Columns  = []string{"a", "b", "c", "k", "EventType", "State", "`my col`", "`semi;col`", "m", "`tick``tock`", "`d``;b`"}
 	Tables   = []string{"T", "U", "Logs", "StormEvents", "`my table`", "`t;1`"}
 	// KnownFuncs lists every built-in of the function table with a correct arity.
 	KnownFuncs = []struct {
@@ -401,7 +401,7 @@ func (g *G) LetBad(name string) []Tok {
 
 // QueryBad returns a statement that fails at lex, parse or compile level.
 func (g *G) QueryBad() []Tok {
-	switch g.R.Intn(12) {
+	switch g.R.Intn(16) {
 	case 0:
 		return toks("!")
 	case 1:
@@ -424,8 +424,17 @@ func (g *G) QueryBad() []Tok {
 		return toks(g.pick(Tables), "|", "project", "strcat", "(", ")")
 	case 10:
 		return toks(g.pick(Tables), "|", "where", "0x")
-	default:
+	case 11:
 		return toks(g.pick(Tables), "|", "sort", "a")
+	case 12:
+		// two slashes that only stay two tokens while a gap separates them
+		return toks(g.pick(Tables), "|", "where", "a", "/", "/", "b")
+	case 13:
+		return toks("let")
+	case 14:
+		return toks(g.pick(Tables), "|", "where", "a", "==", "1.", "and", "b", "==", "0x")
+	default:
+		return toks(g.pick(Tables), "|", "where", "a", "-", "-", "b", "==", `"ends with escaped quote\"`)
 	}
 }
 
